@@ -104,6 +104,10 @@ class World:
         self.resumed_instance = False
         self.last_file_sampler = None  # class of the sampler run by the last sampling call that targeted the file
         self.crashes = 0
+        # observed, not inferred from the action names: a call on a resumed instance may run the checkpoint's sampler
+        # although another one was named
+        self.fit_before_checkpoint = None  # overwrite flag of the last fit that preceded the call that wrote the checkpoint last
+        self.checkpoint_writes = 0
 
     def _watch_config_writes(self):
         inner = self.a.save_config
@@ -122,6 +126,22 @@ class World:
 
         kind = act[0]
         self.current = kind if kind != "sample" else f"sample:{act[1]}"
+        stamp_before = checkpoint_stamp(self.path)
+        fit_flag_before = self.last_fit_overwrite
+        try:
+            self._do(act)
+        finally:
+            if checkpoint_stamp(self.path) != stamp_before:
+                self.checkpoint_writes += 1
+                self.fit_before_checkpoint = fit_flag_before
+                self.overwriting_fit_after_checkpoint = False
+
+    def _do(self, act):
+        import torch
+        from aspire import Aspire
+        from aspire.samples import Samples
+
+        kind = act[0]
         try:
             if kind == "fit":
                 which, overwrite, how = act[1], act[2], act[3]
@@ -145,7 +165,8 @@ class World:
                 else:
                     self.a.sample_posterior(n_samples=4, sampler="importance", **kw)
                 if targets_file:
-                    self.last_file_sampler = SAMPLER_CLASS[sampler]
+                    # the sampler that actually ran (a primed resumed instance turns the default name into the checkpoint's sampler)
+                    self.last_file_sampler = type(self.a.sampler).__name__ if self.a.sampler is not None else SAMPLER_CLASS[sampler]
             elif kind == "sample-crash":
                 # an SMC run with two temperatures that is interrupted (exception from the user's likelihood / prior)
                 # at the first user call after it has written a checkpoint; the user catches the exception and goes on
@@ -237,26 +258,22 @@ class World:
         return (o["config"], o["flow"], o["file_eq_mem"], o["ckpt"], o["ckpt_file"], o["ckpt_mem"], len(self.stack), dv,
                 primed, self.fitted, getattr(self.a, "_last_sampler_type", None), self.error[0] if self.error else None,
                 self.last_fit_overwrite, self.overwriting_fit_after_checkpoint, self.resumed_instance, self.last_file_sampler,
-                self.config_writer)
+                self.config_writer, self.fit_before_checkpoint)
 
 
 SAMPLER_CLASS = {"smc": "MiniPCNSMC", "minipcn_smc": "MiniPCNSMC", "emcee_smc": "EmceeSMC", "importance": "ImportanceSampler"}
 
 
-def cause(hist, o):
-    """Which part of the history explains a file flow that does not reproduce the checkpoint's log q
-    (so that different root causes get different signatures)."""
-    hist = [tuple(a) for a in hist]
-    ck = max((i for i, a in enumerate(hist) if (a[0] == "sample" and a[1] == "smc") or a[0] in ("resume-sample", "sample-crash")), default=None)
-    if ck is None:
-        return "no-checkpointing-sample-in-history"
-    fits_before = [a for a in hist[:ck] if a[0] == "fit"]
-    fits_after = [a for a in hist[ck + 1:] if a[0] == "fit"]
+def cause(w, o):
+    """Which observed events explain a file flow that does not reproduce the checkpoint's log q (so that different root
+    causes get different signatures): the fit that preceded the call which wrote the checkpoint last, and whether an
+    overwriting fit came after it."""
+    if w.checkpoint_writes == 0:
+        return "no-checkpoint-written-in-history"
     if o["ckpt_mem"] and not o["file_eq_mem"]:
-        last = fits_before[-1] if fits_before else None
-        return "stale-file-flow/last-fit-before-checkpoint:overwrite=" + (str(last[2]) if last else "none")
+        return "stale-file-flow/last-fit-before-checkpoint:overwrite=" + ("none" if w.fit_before_checkpoint is None else str(w.fit_before_checkpoint))
     if o["file_eq_mem"] and not o["ckpt_mem"]:
-        return "file-flow-replaced-after-checkpoint/by-fit:overwrite=" + ("True" if any(a[2] for a in fits_after) else "False" if fits_after else "none")
+        return "file-flow-replaced-after-checkpoint/by-fit:overwrite=" + ("True" if w.overwriting_fit_after_checkpoint else "False")
     return "other"
 
 
@@ -269,7 +286,7 @@ def invariant(w, hist=()):
         out.append((f"C14/checkpoint-without-usable-flow/{o['flow']}", o))
     elif o["ckpt_file"] is False:
         rel = f"file{'==' if o['file_eq_mem'] else '!='}memory,checkpoint{'==' if o['ckpt_mem'] else '!='}memory"
-        out.append((f"C14/file-flow-does-not-reproduce-checkpoint-logq/{rel}/{cause(hist, o)}", o))
+        out.append((f"C14/file-flow-does-not-reproduce-checkpoint-logq/{rel}/{cause(w, o)}", o))
     if o["config"] is None:
         out.append(("C14/checkpoint-without-config", o))
     else:
